@@ -1,6 +1,8 @@
 package props
 
 import (
+	eval "github.com/onheap/eval"
+
 	"fmt"
 	"sort"
 	"strings"
@@ -121,6 +123,10 @@ type c16ctx struct {
 	// alias: the second variable of the first same-typed pair is registered
 	// under the KEY of the first (two names for one slot); costs are per name
 	alias bool
+	// how the config comes about: 0 built directly; 2 = the costs (and options)
+	// sit in a base config that knows no variable or operator yet, the config
+	// used is NewConfig(ExtendConf(base)) with names registered afterwards
+	how int
 }
 
 // c16Tree compiles p with Reordering on under the cost map and returns the
@@ -141,6 +147,27 @@ func (c *c16ctx) tree(costs map[string]float64, ro bool) *term.Term {
 			}
 		}
 	}
+	if c.how == 2 {
+		base := eval.NewConfig()
+		for k, v := range cfg.CostsMap {
+			base.CostsMap[k] = v
+		}
+		for k, v := range cfg.CompileOptions {
+			base.CompileOptions[k] = v
+		}
+		derived := eval.NewConfig(eval.ExtendConf(base))
+		for k, v := range cfg.VariableKeyMap {
+			derived.VariableKeyMap[k] = v
+		}
+		for k, v := range cfg.OperatorMap {
+			derived.OperatorMap[k] = v
+		}
+		for k, v := range cfg.ConstantMap {
+			derived.ConstantMap[k] = v
+		}
+		derived.StatelessOperators = append(derived.StatelessOperators, cfg.StatelessOperators...)
+		cfg = derived
+	}
 	e, err := c.h.Compile(cfg, c.p.Src, 0)
 	atomic.AddInt64(c.n, 1)
 	if err != nil {
@@ -156,7 +183,7 @@ func (c *c16ctx) tree(costs map[string]float64, ro bool) *term.Term {
 }
 
 func (c *c16ctx) desc(costs map[string]float64, extra map[string]interface{}) map[string]interface{} {
-	m := map[string]interface{}{"source": c.p.Src, "other_options": c.o.String(), "costs": fmt.Sprint(costs), "first_same_typed_variable_pair_shares_one_key": c.alias}
+	m := map[string]interface{}{"source": c.p.Src, "other_options": c.o.String(), "costs": fmt.Sprint(costs), "first_same_typed_variable_pair_shares_one_key": c.alias, "config_derived_from_a_costs_only_base": c.how == 2}
 	for k, v := range extra {
 		m[k] = v
 	}
@@ -388,14 +415,21 @@ func c16(r *rep.Run) {
 		type variant struct {
 			o     drive.Opt
 			alias bool
+			how   int
 		}
-		variants := []variant{{drive.Opt{}, false}, {drive.Opt{CF: true, RN: true, FE: true}, false}}
+		variants := []variant{{drive.Opt{}, false, 0}, {drive.Opt{CF: true, RN: true, FE: true}, false, 0}}
 		if p.Size < max && len(p.Vars) >= 2 && len(p.Vars) <= 6 {
-			variants = append(variants, variant{drive.Opt{}, true})
+			variants = append(variants, variant{drive.Opt{}, true, 0})
+		}
+		if p.Size < max && len(p.Vars) >= 1 {
+			// priced names that are NOT registered when the cost map is written:
+			// variables resolved by name (undefined-variable mode), and a config
+			// derived from a base that holds only the costs
+			variants = append(variants, variant{drive.Opt{Undef: 1}, false, 0}, variant{drive.Opt{}, false, 2})
 		}
 		for _, vr := range variants {
 			other := vr.o
-			c := &c16ctx{r: r, h: hs[w], p: p, o: other, n: &compiles, alias: vr.alias}
+			c := &c16ctx{r: r, h: hs[w], p: p, o: other, n: &compiles, alias: vr.alias, how: vr.how}
 			c.off = c.tree(nil, false)
 			if c.off == nil {
 				continue
